@@ -1156,6 +1156,11 @@ func (f *Field) Range(name string, op pql.Token, predicate int64) (*Row, error) 
 		return NewRow(), nil
 	}
 
+	// LT[E] and GT[E] return all not-null if the selected range fully encompasses the stored range.
+	if bsig.coversAll(op, predicate) {
+		return view.notNull()
+	}
+
 	return view.rangeOp(op, bsig.BitDepth, baseValue)
 }
 
@@ -1539,6 +1544,8 @@ func (b *bsiGroup) baseValue(op pql.Token, value int64) (baseValue int64, outOfR
 			return baseValue, true
 		} else if value > min {
 			baseValue = int64(value - b.Base)
+		} else {
+			baseValue = int64(min - b.Base)
 		}
 	} else if op == pql.LT || op == pql.LTE {
 		if value < min {
@@ -1555,6 +1562,32 @@ func (b *bsiGroup) baseValue(op pql.Token, value int64) (baseValue int64, outOfR
 		baseValue = int64(value - b.Base)
 	}
 	return baseValue, false
+}
+
+// coversAll reports whether every value the bsiGroup can currently hold
+// satisfies the LT[E]/GT[E] comparison with value, i.e. the comparison selects
+// every not-null column. Stored values lie inside the declared min/max and
+// inside the range of the current bit depth; baseValue clamps the predicate to
+// the latter, which cannot express "everything" for LT and GT.
+func (b *bsiGroup) coversAll(op pql.Token, value int64) bool {
+	min, max := b.bitDepthMin(), b.bitDepthMax()
+	if b.Min > min {
+		min = b.Min
+	}
+	if b.Max < max {
+		max = b.Max
+	}
+	switch op {
+	case pql.LT:
+		return value > max
+	case pql.LTE:
+		return value >= max
+	case pql.GT:
+		return value < min
+	case pql.GTE:
+		return value <= min
+	}
+	return false
 }
 
 // baseValueBetween adjusts the min/max value to align with the range for Field.
